@@ -30,11 +30,13 @@ EXTENDS Naturals, Integers, Sequences, FiniteSets, TLC
 CONSTANTS Model,      \* which mechanism: "prev" | "len" | "bracket" | "search"
           N,          \* sections / objects / maximal input length
           MaxB,       \* the bracket limit of the model (lopdf: MAX_BRACKET = 100)
-          Patterns,   \* search: the patterns (sequences over Alphabet)
-          Alphabet,   \* search: the byte alphabet
           GuardOn     \* FALSE: the guard of the selected mechanism is removed
 
 VARIABLE st           \* one record; its shape depends on Model
+
+\* search: a two-letter alphabet and patterns with and without self-overlap ("%%EOF" overlaps itself in its first two bytes)
+Alphabet == {1, 2}
+Patterns == { <<1, 1, 2>>, <<1, 2, 1>>, <<1, 1>>, <<2>>, <<1, 1, 2, 1, 1>> }
 
 Nodes == 1..N
 
